@@ -229,6 +229,10 @@ func scOpenSteps(pc *proto.Case, r *scRender) {
 	}
 }
 
+// scTblVariants: 1 = the name read in a table constructor is written as positional value, computed key or named value
+// (by position); 0 = always positional (development aid VERIF_TBLVAR=0, and C12, see DESIGN.md 11.4).
+var scTblVariants = map[bool]int{true: 1, false: 0}[os.Getenv("VERIF_TBLVAR") != "0"]
+
 // scUnsaved switches the unsaved-edit arrival on (development aid: VERIF_UNSAVED=0 turns it off).
 var scUnsaved = os.Getenv("VERIF_UNSAVED") != "0"
 
@@ -314,7 +318,7 @@ func scRenderMode(items []scItem, mode int) *scRender {
 				add(i, "local ", decl("n", it.N, it.ID, "local"), " = tostring(", use("u", it.U, it.B, it.Alt), ")")
 			case "table":
 				// the name is read inside a table constructor: as a positional value, as a computed key or as a named value
-				switch (it.ID + len(items)) % 3 {
+				switch ((it.ID + len(items)) % 3) * scTblVariants {
 				case 1:
 					add(i, "local ", decl("n", it.N, it.ID, "local"), " = {[", use("u", it.U, it.B, it.Alt), "] = 1}")
 				case 2:
